@@ -103,6 +103,8 @@ def scenarios_for(binaries, work, idx, tier):
     S = [
         Scenario("gensquashfs-packfile", "gensquashfs", ["-c", comp, "-b", "4096", "-q", "-j", "1", "-e", "-F", pf, "-D", fdir, "-S", sortf, out], outpath=out, packer=True),
         Scenario("gensquashfs-packdir", "gensquashfs", ["-b", "4096", "-q", "-j", "1", "-D", root, "-x", "-k", out], outpath=out, packer=True),
+        Scenario("gensquashfs-packdir-relative", "gensquashfs", ["-c", "gzip", "-b", "4096", "-q", "-j", "1", "-D", "in", "out.sqfs"], outpath=out, packer=True),
+        Scenario("tar2sqfs-relative", "tar2sqfs", ["-c", "gzip", "-q", "-j", "1", "out.sqfs"], stdin=tardata, outpath=out, packer=True),
         Scenario("tar2sqfs", "tar2sqfs", ["-c", comp, "-b", "4096", "-q", "-j", "1", out], stdin=tardata, outpath=out, packer=True),
         Scenario("sqfs2tar", "sqfs2tar", [img], outkind="stdout"),
         Scenario("sqfs2tar-gzip", "sqfs2tar", ["-c", "gzip", img], outkind="stdout"),
@@ -226,7 +228,8 @@ def trunc_case(arg):
         r = core.rng_for(PROP, "trunc", idx)
         with core.Scratch("c13t") as work:
             S = scenarios_for(B, work, idx % 2, tier)
-            t2s = S[2]
+            byname = {x.name: x for x in S}
+            t2s = byname["tar2sqfs"]
             tardata = t2s.stdin
             # offsets inside a member (header or data), never at a member boundary: walk the headers
             inside = []
@@ -255,8 +258,8 @@ def trunc_case(arg):
             img = os.path.join(work, "ref.sqfs")
             data = open(img, "rb").read()
             cut = os.path.join(work, "cut.sqfs")
-            for sci in (3, 5, 7):
-                sc0 = S[sci]
+            for scn in ("sqfs2tar", "rdsquashfs-cat", "rdsquashfs-describe"):
+                sc0 = byname[scn]
                 res0 = run_one(B, sc0, work, {})
                 ref = result_of(sc0, res0, work)
                 for _ in range(6 if tier == "quick" else 60):
@@ -284,7 +287,7 @@ def main(tier):
                       "allocations made by project code); then one run per (class, k, kind) on the ASan build with exactly that fault injected at link-time wrappers. "
                       "quick enumerates every k for the small inputs (sampling only beyond 60 syscalls / 400 allocations per class); distinct = distinct (tool, class, failing call site)")
     build.build("asan")
-    items = [(i, s, tier) for i in range(2) for s in range(16)]
+    items = [(i, s, tier) for i in range(2) for s in range(18)]
     if os.environ.get("VERIF_ONLY"):
         a, b = os.environ["VERIF_ONLY"].split(":")
         items = [(int(a), int(b), tier)]
